@@ -7,7 +7,10 @@ independent definition in refsem/metrics.py computed from the input's operation 
 input (JSON):  {"regs":[ne,np,nc], "ops":[op,...]}                    circuit built with add() in list order
                {"regs":[ne,np,nc], "seed":s, "len":L}                 circuit built by a random edit history (C12 driver);
                                                                       the definition is evaluated on the wire model
-op descriptors: see refsem/dagmodel.py
+               {"regs":..., "seed":s, "len":L [, "focus", "cfocus", "cap"]}   metrics.query_edit_query: edit history with queries
+                                                                      in between (focus: ops on registers with index >= 10)
+               {"regs":..., "start":[op..], "edits":[edit..], "on_copy":b, "query_between":b}   metrics.query_edit_query_short
+op descriptors: see refsem/dagmodel.py ; edits: see bounded/C12.py
 """
 from __future__ import annotations
 
